@@ -33,7 +33,10 @@ package ext
 //@   trusted
 //@   modifies ghost.nAdd at x
 //@   modifies ghost.lastAdd at x
+//@   modifies ghost.sumAdd at x
+//@   modifies ghost.lastRes at x
 //@   ensures ghost(nAdd, x) == old(ghost(nAdd, x)) + 1 && ghost(lastAdd, x) == delta
+//@   ensures ghost(sumAdd, x) == old(ghost(sumAdd, x)) + delta && ghost(lastRes, x) == result
 
 //@ func (*Int32).Store
 //@   trusted
